@@ -99,8 +99,22 @@ class ArrayLike(object):
         self.a[i] = v
 
 
+def _zero_start_downward(a):
+    """The record rebased on its first sample and, if necessary, negated: it starts at exactly 0 and its first move is downward
+    (-sin(t), a baseline-corrected record): a function that skips its defensive copy when 'nothing needs rebasing' and then
+    normalises the sign in place only shows on such a record (round 6 of the seeding)."""
+    a = np.array(a, dtype=float)
+    a = a - a[0]
+    nz = np.flatnonzero(a)
+    if len(nz) and a[nz[0]] > 0:
+        a = 0.0 - a
+    return a
+
+
 def _container(spec, how):
     a = gen.build(spec)
+    if spec.get("zs"):
+        a = _zero_start_downward(a)
     if how == "int":
         return np.array(np.round(a * 8), dtype=np.int64)
     if how in gen.NARROW_DTYPES:  # raw digitiser counts using the dtype's full range (most negative sample = the dtype's minimum)
@@ -1312,6 +1326,8 @@ def _pure_cases(draw):
     kinds = ["noise", "sines", "quake", "walk", "pulse", "levels", "dyadic", "vals"]
     a = draw(gen.record_specs(min_n=n, max_n=n, small_max=n, kinds=kinds, amp_lo=-2, amp_hi=2, allow_zero_runs=False))
     b = draw(gen.record_specs(min_n=n, max_n=n, small_max=n, kinds=["noise", "sines", "walk"], amp_lo=-2, amp_hi=2, allow_zero_runs=False))
+    if draw(st.integers(0, 2)) == 0:
+        a = dict(a, zs=True)  # first sample exactly 0, first move downward (see _zero_start_downward)
     return {"a": a, "b": b, "dt": draw(st.sampled_from([0.005, 0.01, 0.02, 0.05])), "seed": draw(st.integers(0, 10 ** 6)),
             "rot": draw(st.sampled_from(list(range(ROTATE))))}
 
@@ -1342,7 +1358,7 @@ def pure_functions(case, ctx):
 def _pure_one(case, ctx, how):
     af = np.array(gen.build(case["a"]), dtype=float)
     n = len(af)
-    ctx.cls("how=" + how, gen.size_class(n), "kind=" + case["a"]["k"])
+    ctx.cls("how=" + how, gen.size_class(n), "kind=" + case["a"]["k"], "zero-start-downward" if case["a"].get("zs") else None)
     ctx.nt(bool(np.ptp(af) > 0))
     a = _container(case["a"], how)
     b = _container(case["b"], how)
@@ -1396,6 +1412,8 @@ def _mid_record(n, kind, seed):
     else:
         w = np.cumsum(rs.standard_normal(n))
         a = 3.0 * w / max(1e-9, np.max(np.abs(w))) + 0.2 * rs.standard_normal(n) + 0.05
+    if seed % 3 == 0:
+        a = _zero_start_downward(a)  # one mid-range record in three starts at exactly 0 and moves downward first
     return a
 
 
